@@ -19,7 +19,7 @@ def graph_case(rnd, max_nodes=5, max_t=6, max_edges=12, selfloops=0.1):
         e = None if rnd.random() < 0.75 else t + rnd.randint(1, 3)
         hist.append(('add', 0, u, v, t, e))
     # snapshot ids of different widths / signs (the DAG encodes them in strings)
-    sh = rnd.choice([0, 0, 0, 7, 8, -3, -2, 96])
+    sh = rnd.choice([0, 0, 0, 7, 8, -3, -2, 96, 2 ** 31 - 2, 1700000000000])
     hist = [(o[0], o[1], o[2], o[3], o[4] + sh, None if o[5] is None else o[5] + sh) for o in hist]
     hist.sort(key=lambda o: o[4])
     if not hist:
@@ -74,12 +74,14 @@ class World:
     def __init__(self, prog, ri):
         self.T = Truth(prog, ri)
         self.directed = self.T.directed.get(0, False)
-        self.ids = self.T.ids.get(0, [])
         self.nodes = self.T.nodes_flat.get(0, [])
         self.adj = {}
         for (r, u, v, t), val in self.T.has.items():
             if r == 0 and val is True and t is not None:
                 self.adj.setdefault((u, t), set()).add(v)
+        # the snapshot ids are the inhabited instants (C04): taken from the presence answers, not from what
+        # temporal_snapshots_ids() says (the probes cover every instant of the history and a margin)
+        self.ids = sorted({t for (x, t) in self.adj})
 
     def nbrs(self, x, t):
         return self.adj.get((x, t), set())
